@@ -257,7 +257,15 @@ fn check_op(c: &TCase, op: &TOp, tr: &[(bool, u64, u8, u64)], res: &Res, pre: &P
                 return Err(format!("get_status() = {:?}, Status register = {:#x}", res, pre.status));
             }
         }
-        TOp::SetStatus(v) => exact(&[(true, 0x70, *v as u64)])?,
+        TOp::SetStatus(v) => {
+            // Status is read/write: reading it back (e.g. waiting for a reset to take effect) is the
+            // implementation's choice; the one value written must be the caller's
+            only(&[0x70])?;
+            let writes: Vec<u64> = tr.iter().filter(|a| a.0).map(|a| a.3).collect();
+            if writes != vec![*v as u64] {
+                return Err(format!("set_status({:#x}) wrote {:x?} to Status", v, writes));
+            }
+        }
         TOp::GuestPage(v) => {
             if legacy {
                 exact(&[(true, 0x28, *v as u64)])?
@@ -495,7 +503,9 @@ fn run_on<T: Transport>(c: &TCase, mk: impl FnOnce(MmioTransport<'static>) -> T,
     let tr = rel(&with(|w| w.bus.take_trace()));
     if oracle {
         let got: Vec<(bool, u64, u64)> = tr.iter().map(|a| (a.0, a.1, a.3)).collect();
-        if got != vec![(true, 0x70, 0)] {
+        // reset = write 0 to Status; reading Status back afterwards is allowed, nothing else is
+        let writes: Vec<(u64, u64)> = got.iter().filter(|a| a.0).map(|a| (a.1, a.2)).collect();
+        if writes != vec![(0x70, 0)] || got.iter().any(|a| a.1 != 0x70) || !got.first().map_or(false, |a| a.0) {
             return Err(format!("dropping the transport must reset the device (write 0 to Status), trace {:x?}", got));
         }
     }
